@@ -15,6 +15,7 @@ def _split(kw):
     sl = kw.get('only_slices')
     if not sl:
         return None, None
+    sl = [x for x in sl if x not in ('searcher', 'readerlookup')]
     return [x for x in sl if not x.startswith('rw-')], [x for x in sl if x.startswith('rw-')]
 
 
@@ -38,8 +39,10 @@ for _p in ('C07', 'C08', 'C09', 'C10', 'C19'):
 
 
 def _c10(out, prop, tier, seed, **kw):
-    _mc_run(out, prop, tier, seed, **kw)
-    if not kw.get('only_slices'):
+    sl = kw.get('only_slices')
+    if sl != ['searcher']:
+        _mc_run(out, prop, tier, seed, **kw)
+    if not sl or 'searcher' in sl:
         searcher.run(out, prop, tier, seed)
 
 
@@ -63,8 +66,10 @@ REGISTRY['C14'] = {'run': readerlookup.run, 'replay': readerlookup.replay, 'fini
 
 
 def _c19(out, prop, tier, seed, **kw):
-    _mc_run(out, prop, tier, seed, **kw)
-    if not kw.get('only_slices'):
+    sl = kw.get('only_slices')
+    if sl != ['readerlookup']:
+        _mc_run(out, prop, tier, seed, **kw)
+    if not sl or 'readerlookup' in sl:
         readerlookup.run(out, prop, tier, seed)
 
 
